@@ -238,6 +238,26 @@ def write_pod_table(path):
     return path
 
 
+def write_pod_module(dirname):
+    """PodData.tla: the part-of-day table of the tree under test as a TLA+ literal."""
+    tab = pod_table()
+    rows = []
+    for key in sorted(tab):
+        v = tab[key]
+        if not key.isascii() or not key.isalnum():
+            continue
+        rows.append('  %s |-> [h0 |-> %d, h1 |-> %d, pm |-> %s, am |-> %s]' % (
+            key, v["h0"], v["h1"], "TRUE" if v["pm"] else "FALSE", "TRUE" if v["am"] else "FALSE"))
+    body = ("------------------------------ MODULE PodData ------------------------------\n"
+            "(* GENERATED at check time from ctparse.types.pod_hours of the tree under test *)\n"
+            "PodTable == [\n" + ",\n".join(rows) + "\n]\n"
+            "=============================================================================\n")
+    path = os.path.join(dirname, "PodData.tla")
+    with open(path, "w") as fd:
+        fd.write(body)
+    return path
+
+
 # ---- recorder ---------------------------------------------------------------------------------
 class Recorder:
     """Collects what the engine did, through PartialParse.apply_rule (class attribute swap)."""
